@@ -378,6 +378,27 @@ pub fn node_with_token(id: Id, address: SocketAddrV4, token: &[u8]) -> Node {
 pub fn closest_secure(table: &RoutingTable, target: Id) -> Vec<Node> {
     table.closest_secure(target)
 }
+/// The `nodes` a server with fresh stores puts in its answer to `request` from `from`, given its two routing tables
+/// (`Server` and its `handle_request` are crate-private). `None`: no answer, or an answer without `nodes`.
+pub fn served_nodes(
+    table: &RoutingTable,
+    signed_peers_table: &RoutingTable,
+    from: SocketAddrV4,
+    request: RequestSpecific,
+) -> Option<Vec<Node>> {
+    let mut server = crate::core::server::Server::new(Default::default());
+    let message = match server.handle_request(table, signed_peers_table, from, request) {
+        Some(MessageType::Response(response)) => Message {
+            transaction_id: 0,
+            message_type: MessageType::Response(response),
+            version: None,
+            read_only: false,
+            requester_ip: None,
+        },
+        _ => return None,
+    };
+    message.get_closer_nodes().map(|nodes| nodes.to_vec())
+}
 /// Age of a node entry's `last_seen` in virtual nanoseconds.
 pub fn node_age_ns(node: &Node) -> u64 {
     node.0.last_seen.elapsed().as_nanos() as u64
